@@ -1,6 +1,8 @@
 module verifharness
 
-go 1.22
+go 1.22.0
+
+toolchain go1.23.5
 
 require (
 	github.com/go-openapi/analysis v0.0.0
@@ -20,7 +22,11 @@ require (
 	github.com/mitchellh/mapstructure v1.5.0 // indirect
 	github.com/oklog/ulid v1.3.1 // indirect
 	go.mongodb.org/mongo-driver v1.14.0 // indirect
+	golang.org/x/mod v0.22.0 // indirect
+	golang.org/x/sync v0.10.0 // indirect
 	gopkg.in/yaml.v3 v3.0.1 // indirect
 )
 
 replace github.com/go-openapi/analysis => /repo
+
+require golang.org/x/tools v0.29.0
